@@ -79,6 +79,30 @@ def _has_input_name_or_obj(
     return False
 
 
+def _subgraphs_use_value(node: ir.Node, value: ir.Value) -> bool:
+    """Return whether a Loop/If/Scan body of ``node`` (at any depth) reads ``value``."""
+
+    def _graph_uses(graph: ir.Graph) -> bool:
+        if any(out is value for out in graph.outputs):
+            return True
+        for child in graph:
+            if any(iv is value for iv in child.inputs):
+                return True
+            if _subgraphs_use_value(child, value):
+                return True
+        return False
+
+    for attr in node.attributes.values():
+        if attr.type is ir.AttributeType.GRAPH:
+            child_graph = attr.as_graph()
+            if child_graph is not None and _graph_uses(child_graph):
+                return True
+        elif attr.type is ir.AttributeType.GRAPHS:
+            if any(_graph_uses(child) for child in attr.as_graphs()):
+                return True
+    return False
+
+
 def _consumer_nodes(
     nodes: Sequence[ir.Node], value_or_name: Union[ir.Value, str, None]
 ) -> List[ir.Node]:
@@ -94,6 +118,15 @@ def _consumer_nodes(
             try:
                 if all(isinstance(c, ir.Node) for c in consumers):
                     filtered = [c for c in consumers if id(c) in current_node_ids]
+                    if len(filtered) != len(consumers):
+                        # Some uses live in nested graphs: the node that owns the
+                        # body is a consumer of the captured value in this scope.
+                        seen = {id(c) for c in filtered}
+                        for node in nodes:
+                            if id(node) not in seen and _subgraphs_use_value(
+                                node, value_or_name
+                            ):
+                                filtered.append(node)
                     if filtered:
                         return list(filtered)
             except Exception:
